@@ -155,8 +155,11 @@ def run(ctx):
         p.attach_pattern(pat)
         data = p.read()
         pdta = [list(pl) for cid, pl in tlv.split(data) if cid == b"PDTA"]
+        # the same file stamped with other versions (only the VERS payload is rewritten, through the TLV layer)
+        vers = rnd.choice([[2, 1, 2, 1], [2, 1, 2, 1], [1, 9, 5, 0], [1, 9, 5, 1], [2, 0, 0, 0], [1, 9, 4, 255], [1, 7, 0, 0], [1, 10, 0, 0]])
+        data = tlv.join([(cid, bytes(reversed(vers)) if cid == b"VERS" else pl) for cid, pl in tlv.split(data)])
         p2 = api.read_sunvox_file(io.BytesIO(data))
-        events.append({"op": "pattern", "lines": lines, "tracks": tracks, "image": image, "cells": cl, "back": back,
+        events.append({"op": "pattern", "lines": lines, "tracks": tracks, "image": image, "cells": cl, "back": back, "vers": vers,
                        "pdta": pdta[0] if pdta else [], "reloaded": list(p2.patterns[0].raw_data)})
         ctx.count_case(("pattern", k, lines, tracks, hash(bytes(image))), nontrivial=True)
     # ---- file-only packed words
